@@ -299,7 +299,9 @@ class DriverActor(actor.RallyActor):
     @actor.no_retry("driver")  # pylint: disable=no-value-for-parameter
     def receiveMsg_WakeupMessage(self, msg, sender):
         if msg.payload == DriverActor.RESET_RELATIVE_TIME_MARKER:
-            self.driver.reset_relative_time()
+            # this wake-up may be late: there is nothing to reset anymore after the benchmark has completed (and the metrics store is closed).
+            if not self.driver.finished():
+                self.driver.reset_relative_time()
         elif not self.driver.finished():
             self.post_process_timer += DriverActor.WAKEUP_INTERVAL_SECONDS
             if self.post_process_timer >= DriverActor.POST_PROCESS_INTERVAL_SECONDS:
